@@ -150,7 +150,14 @@ def file_able(arr):
 
 
 def write_text(text):
+    """Half of the layouts go to a fresh file name, the others REWRITE one file per worker process
+    (a level generator that reuses its output path): what is built must be what the file holds now."""
     os.makedirs(SCRATCH, exist_ok=True)
+    if len(text) % 2:
+        path = os.path.join(SCRATCH, "level_%d.txt" % os.getpid())
+        with open(path, "w", newline="") as f:
+            f.write(text)
+        return path
     fd, path = tempfile.mkstemp(dir=SCRATCH, suffix=".txt")
     with os.fdopen(fd, "w", newline="") as f:
         f.write(text)
